@@ -8,10 +8,11 @@ CONSTANT Contents = {"c1", "c2"}
 CONSTANT Configs <- CfSim
 CONSTANT Fails = {"ok", "fd", "fr"}
 CONSTANT FailKeys = {"k1", "k2", "k3", "k4"}
-CONSTANT OpSet = {"Get", "GetActive", "Put", "Upsert", "Remove", "Peek"}
+CONSTANT OpSet = {"Get", "GetActive", "Put", "Upsert", "Remove", "Peek", "Inval"}
 CONSTANT FreePut = TRUE
 CONSTANT MaxOps = 10
 CONSTANT MaxSteps = 10
+CONSTANT MaxUpd = 2
 CONSTANT Pool = 6
 CONSTANT SeqPrefix = 1000000
 SPECIFICATION SimSpec
